@@ -61,7 +61,8 @@ def gen_inputs(seed, n_random, profile="safe", with_matrix=True):
     texts = list(corpus_texts())
     if with_matrix:
         texts += [dslgen.render(p) for p in matrix_programs()]
-    cfg = dslgen.Cfg() if profile == "safe" else dslgen.Cfg(allow_char=True, odd_names=True, unique_inline=False)
+    cfg = (dslgen.Cfg() if profile == "safe" else dslgen.Cfg(length_any_target=True) if profile == "codec"
+           else dslgen.Cfg(allow_char=True, odd_names=True, unique_inline=False))
     for _ in range(n_random):
         texts.append(dslgen.render(dslgen.gen_program(rng, cfg)))
     return texts
